@@ -306,6 +306,7 @@ func runC12(c *core.Ctx) *core.Outcome {
 		type contRes struct {
 			st    *world.Step
 			files map[string][]byte
+			lost  string // a complete record that the listing of the directory does not yield
 		}
 		contCache := map[string]*contRes{}
 		cont := func(files map[string][]byte, calls map[string]int, tag string) *contRes {
@@ -320,8 +321,45 @@ func runC12(c *core.Ctx) *core.Outcome {
 				dn.SetFile(name, b)
 			}
 			cc := map[string]map[string]int{sid: calls}
-			_, cs := c12World(a, cfg, dn, ids, cc)
-			r := &contRes{st: cs[sid].Request(nextIn, true), files: stateFiles(dn)}
+			w2, cs := c12World(a, cfg, dn, ids, cc)
+			// a later start that finds its sessions through the store's listing: whatever else lies in the
+			// directory (temporary files of writers that died), every complete record is listed
+			lost := ""
+			if h, err := w2.NewStore(cs[sid]); err == nil {
+				h.SetPrefix(db.DATATYPE_STATE)
+				listed := map[string]bool{}
+				world.Guard(func() {
+					d, err := h.Dump(context.Background(), []byte{})
+					if err != nil {
+						return
+					}
+					for k := 0; k < 1000; k++ {
+						kk, _ := d.Next(context.Background())
+						if kk == nil {
+							break
+						}
+						listed[string(kk)] = true
+					}
+					d.Close()
+				})
+				for _, id := range ids {
+					want := id
+					if cfg.SetSession {
+						want = id + "." + id
+					}
+					has := false
+					for name := range files {
+						base := name[strings.LastIndex(name, "/")+1:]
+						if len(base) > 1 && base[1:] == want && !strings.HasPrefix(base, ".") {
+							has = true
+						}
+					}
+					if has && !listed[want] && cfg.Backend == world.BackFs {
+						lost = fmt.Sprintf("record of session %s (key %q) is in the directory but the listing of the state records yields %v", id, want, sortedBoolKeys(listed))
+					}
+				}
+			}
+			r := &contRes{st: cs[sid].Request(nextIn, true), files: stateFiles(dn), lost: lost}
 			contCache[key] = r
 			return r
 		}
@@ -457,6 +495,9 @@ func runC12(c *core.Ctx) *core.Outcome {
 			crashCalls := copyCalls(cs[sid].Calls)
 			gotR := cont(after, crashCalls, fmt.Sprintf("crash%d.%d", pt.step, pt.off))
 			got := gotR.st
+			if gotR.lost != "" {
+				return fail("record-not-listed-after-crash", i, "%s: %s (strays: %v)", desc, gotR.lost, strays)
+			}
 			if got.Panic != "" {
 				return fail("panic-after-crash", i, "%s: continuing on the crashed disk with input %q panicked in %s: %s", desc, nextIn, got.PanicAt, got.Panic)
 			}
